@@ -1,6 +1,6 @@
 """C18 - parsing a replay cannot execute code chosen by the file."""
 import os, re, sys, json, pickle, random, shutil, struct, tempfile, sysconfig
-from tools import common, gen_sites, battle, recordings, c18_marker, gen_types
+from tools import common, gen_sites, battle, recordings, c18_marker, gen_types, synth
 from tools.gen_const import GEN_DIR, coq_str
 LEVEL = 'other'
 
@@ -135,6 +135,33 @@ def run(ctx):
             if bad:
                 ctx.violation(dict(kind='benign-parse-does-more-than-read', file=os.path.basename(f), events=bad[:10],
                                    how='ReplayParser(file).get_info() under sys.addaudithook (tools/c18.audited_parse)'))
+        # (1') packets addressed to entities that were NEVER CREATED (every packet kind that names an entity; ids 0, negative, huge): whatever the
+        # player does with them (fail and skip, ignore), it opens nothing - parsed in a scratch working directory, which must stay empty
+        cwd0_ = os.getcwd(); wd_ = os.path.join(tmp, 'wd-orphans'); os.makedirs(wd_)
+        for v_ in ('13_2_0', '0_10_0'):
+            if v_ not in battle.wows_versions(): continue
+            ob, ovs = battle.build_wows(v_, random.Random(11))
+            for eid in (77777, 0, -5, 2 ** 31 - 1):
+                ob.pkt('Position', struct.pack('<ii', eid, 0) + bytes(24) + bytes(12) + b'\x00')
+                ob.pkt('PlayerPosition', struct.pack('<ii', eid, 0) + bytes(24))
+                ob.pkt('PlayerPosition', struct.pack('<ii', 900, eid) + bytes(24))
+                ob.pkt('EntityMethod', struct.pack('<iI', eid, 0) + synth.binstream(b''))
+                ob.pkt('EntityProperty', struct.pack('<iI', eid, 0) + synth.binstream(b'\x00'))
+                if 'NestedProperty' in ob.ids: ob.pkt('NestedProperty', struct.pack('<ibB', eid, 0, 1) + bytes(3) + b'\x80')
+                ob.pkt('EntityLeave', struct.pack('<i', eid)); ob.pkt('EntityEnter', struct.pack('<iii', eid, 1, 2)); ob.pkt('EntityControl', struct.pack('<ib', eid, 1))
+            po = os.path.join(tmp, 'orphans-%s.wowsreplay' % v_); battle.write_replay(po, 'wowsreplay', {'clientVersionFromXml': ovs}, ob.stream())
+            os.chdir(wd_)
+            try:
+                out, ev, marks = audited_parse(po)
+                bad = judge(po, ev, [bundled])
+            finally: os.chdir(cwd0_)
+            ctx.case(('orphan-packets', v_)); ctx.count('orphan-packets', 36)
+            left = sorted(os.listdir(wd_))
+            if bad or left:
+                ctx.violation(dict(kind='benign-parse-does-more-than-read', file='a synthetic %s battle followed by packets of every kind for entity ids that were never created (77777, 0, -5, 2^31-1)' % v_,
+                                   events=bad[:10], files_left_in_the_working_directory=left[:6],
+                                   how='ReplayParser(file).get_info() under sys.addaudithook in an empty scratch working directory: only the replay and the bundled definitions may be opened, the directory stays empty'))
+                break
         # (1a) a replay much bigger than any sample (a packet stream of 9 MiB of unmapped packets around a small battle): still nothing but the replay
         # and the bundle is opened - no spill files, wherever buffers are kept
         from tools import c15 as c15_
